@@ -58,6 +58,29 @@ Proof.
     rewrite (Rabs_right bp_MDOTINIT) by lra; field; repeat split; assumption.
 Qed.
 
+(* ... and against the declared direction (m <= 0): the same law from node i+1 to node i *)
+Lemma comp_lemma_rev (nb : bool) :
+  forall bp_AREA bp_D bp_LENGTH bp_LOSS_COEFFICIENT bp_MDOTINIT bp_PL bp_TOUTINIT comp_fact der_comp der_comp1 der_lambda
+         height_difference lambda_ np_from_TINIT p_init_i1_abs p_init_i_abs rho rho_n : R,
+  bp_AREA <> 0 -> bp_D <> 0 -> rho_n <> 0 -> p_init_i_abs + p_init_i1_abs <> 0 -> bp_MDOTINIT <= 0 ->
+  let lv := if nb then hyd_comp_nb_load_vec bp_AREA bp_D bp_LENGTH bp_LOSS_COEFFICIENT bp_MDOTINIT bp_PL bp_TOUTINIT comp_fact
+                         der_comp der_comp1 der_lambda height_difference lambda_ np_from_TINIT p_init_i1_abs p_init_i_abs rho rho_n
+            else hyd_comp_np_load_vec bp_AREA bp_D bp_LENGTH bp_LOSS_COEFFICIENT bp_MDOTINIT bp_PL bp_TOUTINIT comp_fact
+                         der_comp der_comp1 der_lambda height_difference lambda_ np_from_TINIT p_init_i1_abs p_init_i_abs rho rho_n in
+  let vN := bp_MDOTINIT / (rho_n * bp_AREA) in
+  let Tm := (np_from_TINIT + bp_TOUTINIT) / 2 in
+  let Pi := p_init_i_abs * bar in let Pi1 := p_init_i1_abs * bar in
+  - lv * bar * ((Pi + Pi1) / 2) =
+    (Pi1 ^ 2 - Pi ^ 2) / 2 - (bp_PL * bar + rho * g_doc * height_difference) * ((Pi + Pi1) / 2)
+    - (doc_gas_coeff lambda_ rho_n vN bp_D Tm comp_fact * bp_LENGTH
+       + bp_LOSS_COEFFICIENT * (rho_n * vN ^ 2 / 2) * pN_pa * (Tm / TN_k) * comp_fact).
+Proof.
+  intros until rho_n. intros HA HD Hr Hp Hm lv vN Tm Pi Pi1. subst lv vN Tm Pi Pi1.
+  unfold doc_gas_coeff, g_doc, bar, pN_pa, TN_k.
+  destruct nb; unfold hyd_comp_nb_load_vec, hyd_comp_np_load_vec; cbv zeta;
+    rewrite (Rabs_left1 bp_MDOTINIT) by exact Hm; field; repeat split; assumption.
+Qed.
+
 (* mean pressure: the standard form 2/3 (p_i + p_{i+1} - p_i p_{i+1} / (p_i + p_{i+1})) of the mean of a profile with
    linear p^2, and it lies between the end pressures *)
 Lemma pm_lemma : forall p_init_i1_abs p_init_i_abs : R,
